@@ -329,6 +329,21 @@ def run_hist_engine(ctx, spec):
 
 # ---------------------------------------------------------------------------------------
 
+def run_findings(ctx):
+    """KNOWN-FINDING lines for the listed findings that the deterministic scenarios still reproduce"""
+    kf = {c: t for c, t in known_findings(ctx.pid).items() if c in ("K1", "K3", "K4", "K5", "K6", "K7")}
+    if not kf or ctx.replay:
+        return
+    out = os.path.join(CACHE, "run", f"{ctx.pid}_finding")
+    vlib.sh([os.path.join(CACHE, "harness"), "finding", "--out", out], timeout=300)
+    res = json.load(open(os.path.join(out, "findings.json")))
+    for cls, txt in sorted(kf.items()):
+        if cls in res and not any(k.startswith(cls + " ") for k in ctx.known):
+            ctx.known.append(f"{cls} {txt[:300]} [observed: {res[cls][:200]}]")
+        elif cls not in res:
+            ctx.notes.append(f"listed finding {cls} did not reproduce on this tree")
+
+
 def run_property(ctx):
     cfg = PROPS[ctx.pid]
     check_proofs(ctx)
@@ -339,6 +354,7 @@ def run_property(ctx):
         return
     for spec in cfg["engines"]:
         ENGINES[spec["engine"]](ctx, spec)
+    run_findings(ctx)
     if ctx.proof_broken and not any(v["found_input"] for v in ctx.violations):
         ctx.violation("proof", f"proof obligations of {ctx.pid} no longer check: {ctx.proof_broken}; theorems {ctx.proof['theorems']}\n{getattr(ctx, 'proof_log', '')}",
                       found_input=False)
